@@ -262,8 +262,28 @@ def ocaml_build(group, timeout=900):
 
 # ----------------------------------------------------------------------------- Rust harness
 
-def harness_build(bins, profile="release", features=("verif_hooks",), timeout=1800):
+def harness_dir():
+    """/verif/harness, or - when VERIF_REPO points at another checkout (mutant testing) - a shadow
+    copy under scratch/ whose Cargo.toml depends on that checkout, with its own target dir."""
+    if os.path.realpath(REPO) == "/repo":
+        return HARNESS
+    tag = hashlib.blake2b(os.path.realpath(REPO).encode(), digest_size=5).hexdigest()
+    d = os.path.join(SCRATCH, "harness_" + tag)
+    os.makedirs(d, exist_ok=True)
+    toml = open(os.path.join(HARNESS, "Cargo.toml")).read().replace("/repo/", os.path.realpath(REPO) + "/")
+    tp = os.path.join(d, "Cargo.toml")
+    if not os.path.exists(tp) or open(tp).read() != toml:
+        open(tp, "w").write(toml)
+    for name in ("src", ".cargo", "Cargo.lock"):
+        dst = os.path.join(d, name)
+        if not os.path.lexists(dst):
+            os.symlink(os.path.join(HARNESS, name), dst)
+    return d
+
+
+def harness_build(bins, profile="release", features=(), timeout=1800):
     """cargo build of harness binaries against /repo's working tree. Returns {bin: path}."""
+    hdir = harness_dir()
     lock_src = os.path.join(REPO, "Cargo.lock")
     lock_dst = os.path.join(HARNESS, "Cargo.lock")
     if os.path.exists(lock_src) and not os.path.exists(lock_dst):
@@ -276,13 +296,13 @@ def harness_build(bins, profile="release", features=("verif_hooks",), timeout=18
     if features:
         cmd += ["--features", ",".join(features)]
     try:
-        rc, out = sh(cmd, cwd=HARNESS, timeout=timeout, env={"VERIF_REPO": REPO})
+        rc, out = sh(cmd, cwd=hdir, timeout=timeout, env={"VERIF_REPO": REPO})
     except subprocess.TimeoutExpired:
         raise BrokenTie("cargo build timed out")
     if rc != 0:
         raise BrokenTie("harness does not build against /repo (%s)" % profile, out[-6000:])
     sub = "release" if profile == "release" else "debug"
-    return {b: os.path.join(HARNESS, "target", sub, b) for b in bins}
+    return {b: os.path.join(hdir, "target", sub, b) for b in bins}
 
 
 def run_lines(exe, args, lines, timeout=1800, env=None):
@@ -471,8 +491,9 @@ class Ctx:
             "wall_s": round(wall, 2),
             "violations": max(len(self.violations), getattr(self, "nviol", 0)),
         }
-        os.makedirs(os.path.join(VERIF, "evidence"), exist_ok=True)
-        with open(os.path.join(VERIF, "evidence", self.prop + ".json"), "w") as f:
+        evdir = os.environ.get("VERIF_EVIDENCE_DIR", os.path.join(VERIF, "evidence"))
+        os.makedirs(evdir, exist_ok=True)
+        with open(os.path.join(evdir, self.prop + ".json"), "w") as f:
             json.dump(ev, f, indent=1, default=str)
         for path, suffix in self.violations:
             print("VIOLATION property=%s replay=%s%s" % (self.prop, path, suffix))
